@@ -57,3 +57,17 @@ pub fn mixed_u64(r: &mut Rng, b: &[u64]) -> u64 {
         _ => r.next_u64(),
     }
 }
+
+/// (location, message) of the most recent caught panic (set by the panic hook in main.rs).
+pub static LAST_PANIC: std::sync::Mutex<(String, String)> = std::sync::Mutex::new((String::new(), String::new()));
+
+/// `panic@<file relative to /repo>:<message class>` for the most recent caught panic; line numbers
+/// are left out so that unrelated edits do not change the site name.
+pub fn panic_site() -> String {
+    let (loc, msg) = LAST_PANIC.lock().unwrap().clone();
+    let file = loc.rsplit_once(':').map(|x| x.0).unwrap_or(&loc).trim_start_matches("/repo/").to_string();
+    let class: String = msg.chars().take(60).map(|c| if c.is_ascii_alphanumeric() { c } else { '_' }).collect();
+    // strip run-dependent numbers
+    let class: String = class.split('_').filter(|w| !w.is_empty() && !w.chars().all(|c| c.is_ascii_digit())).collect::<Vec<_>>().join("_");
+    format!("panic@{}:{}", file, class)
+}
